@@ -1,44 +1,58 @@
-// verification drivers compiled inside the crate (hook H6); one inline module per driver
+// verification drivers compiled inside the crate (hook H6); one inline module per driver.
+// Each driver is behind its own cargo feature (all on by default) so that a driver that no longer compiles
+// against a changed /repo does not take the other checks' drivers down with it: vplib.cargo_build retries
+// with `--no-default-features --features drv_<name>`.
+#[cfg(feature = "drv_c02")]
 #[allow(dead_code, unused_imports, clippy::all)]
 pub mod c02 {
     include!("drivers/c02.rs");
 }
+#[cfg(feature = "drv_c03")]
 #[allow(dead_code, unused_imports, clippy::all)]
 pub mod c03 {
     include!("drivers/c03.rs");
 }
+#[cfg(feature = "drv_c04")]
 #[allow(dead_code, unused_imports, clippy::all)]
 pub mod c04 {
     include!("drivers/c04.rs");
 }
+#[cfg(feature = "drv_c09")]
 #[allow(dead_code, unused_imports, clippy::all)]
 pub mod c09 {
     include!("drivers/c09.rs");
 }
+#[cfg(feature = "drv_c10")]
 #[allow(dead_code, unused_imports, clippy::all)]
 pub mod c10 {
     include!("drivers/c10.rs");
 }
+#[cfg(feature = "drv_c12")]
 #[allow(dead_code, unused_imports, clippy::all)]
 pub mod c12 {
     include!("drivers/c12.rs");
 }
+#[cfg(feature = "drv_c13")]
 #[allow(dead_code, unused_imports, clippy::all)]
 pub mod c13 {
     include!("drivers/c13.rs");
 }
+#[cfg(feature = "drv_c16")]
 #[allow(dead_code, unused_imports, clippy::all)]
 pub mod c16 {
     include!("drivers/c16.rs");
 }
+#[cfg(feature = "drv_c18")]
 #[allow(dead_code, unused_imports, clippy::all)]
 pub mod c18 {
     include!("drivers/c18.rs");
 }
+#[cfg(feature = "drv_c19_rules")]
 #[allow(dead_code, unused_imports, clippy::all)]
 pub mod c19_rules {
     include!("drivers/c19_rules.rs");
 }
+#[cfg(feature = "drv_e2e")]
 #[allow(dead_code, unused_imports, clippy::all)]
 pub mod e2e {
     include!("drivers/e2e.rs");
